@@ -243,7 +243,18 @@ def matching_case(ctx, k, rng):
         A = np.vstack([A, gen.diagram(rng, int(rng.integers(1, 3)), "float", scale, allow_diag=False) + 9 * scale])
     fn = P.bottleneck if which == "bottleneck" else P.wasserstein
     mode = int(rng.integers(0, 3))
-    ctx.begin(k, "%s/mode%d" % (which, mode), {"dgm1": A, "dgm2": B, "which": which, "axes_mode": mode})
+    has_inf = False
+    Afin, Bfin = A, B
+    if rng.random() < 0.25 and len(A) and len(B):
+        # essential classes at arbitrary rows (first, in the middle, last): the distance functions drop them, and the matching they
+        # return indexes the remaining points; the plot receives the diagrams as the user has them
+        if rng.random() < 0.7:
+            A = gen.insert_inf_rows(rng, A, int(rng.integers(1, 3))); A[np.isinf(A[:, 1]), 0] *= scale
+        if rng.random() < 0.5:
+            B = gen.insert_inf_rows(rng, B, 1); B[np.isinf(B[:, 1]), 0] *= scale
+        has_inf = bool(np.any(np.isinf(A)) or np.any(np.isinf(B)))
+        ctx.note("matching plots of diagrams with essential classes")
+    ctx.begin(k, "%s/mode%d%s" % (which, mode, "/inf" if has_inf else ""), {"dgm1": A, "dgm2": B, "which": which, "axes_mode": mode})
     try:
         d, rows = fn(A, B, matching=True)
     except Exception as e:
@@ -265,8 +276,8 @@ def matching_case(ctx, k, rng):
         ctx.exception("matching plot returns", e, rows=rows)
         plt.close("all")
         return
-    S = A if len(A) else np.array([[0.0, 0.0]])
-    T = B if len(B) else np.array([[0.0, 0.0]])
+    S = Afin if len(Afin) else np.array([[0.0, 0.0]])
+    T = Bfin if len(Bfin) else np.array([[0.0, 0.0]])
     sc = scale_of(S, T)
     q = 1e-9 + sc
     expected = []
@@ -289,7 +300,8 @@ def matching_case(ctx, k, rng):
             if len(x) != 2:
                 continue
             is_diag = np.allclose(x, y) and l.get_linestyle() == "--" and abs(x[0] - xl[0]) <= 1e-6 * q and abs(x[1] - xl[1]) <= 1e-6 * q
-            if is_diag:
+            is_infline = has_inf and y[0] == y[1] and l.get_linestyle() == "--" and abs(x[0] - xl[0]) <= 1e-6 * q and abs(x[1] - xl[1]) <= 1e-6 * q
+            if is_diag or is_infline:
                 continue
             out.append((seg_key((x[0], y[0]), (x[1], y[1]), sc=q), (l.get_linestyle(), float(l.get_linewidth()), str(l.get_color()))))
         return out
@@ -305,9 +317,10 @@ def matching_case(ctx, k, rng):
     okc = len(offs) == 2 and all(o.shape == np.asarray(D).reshape(-1, 2).shape and (len(o) == 0 or np.max(np.abs(o - np.asarray(D, np.float32).astype(float))) <= 2e-6 * q)
                                  for o, D in zip(offs, (S if which == "wasserstein" else (A if len(A) else np.zeros((0, 2))),
                                                         T if which == "wasserstein" else (B if len(B) else np.zeros((0, 2))))))
-    ctx.check("matching plot: both diagrams drawn as scatter collections", okc, found=[o.shape for o in offs])
+    if not has_inf:
+        ctx.check("matching plot: both diagrams drawn as scatter collections", okc, found=[o.shape for o in offs])
     if labels is not None and target.get_legend():
-        ctx.check("matching plot: legend labels as requested", [t.get_text() for t in target.get_legend().get_texts()][:2] == labels,
+        ctx.check("matching plot: legend labels as requested", [t.get_text() for t in target.get_legend().get_texts() if t.get_text() != r"$\infty$"][:2] == labels,
                   legend=[t.get_text() for t in target.get_legend().get_texts()])
     if which == "bottleneck" and ok and len(rows):
         keep = [r for r in range(len(rows)) if not (rows[r, 0] == -1 and rows[r, 1] == -1)]
